@@ -166,6 +166,11 @@ func (s *Scenario) tag(q *QExp, ei embInfo) string {
 		}
 		t = on + "(" + t + ")"
 	}
+	// a degenerate ray under an embedding that does not keep lattice coincidences exact (scale 1e-3, rotations) is
+	// only nearly degenerate in float64: its own class, so that a miscount on an exactly degenerate ray is reported
+	if !ei.exact && q.B != 1 && t != "general" {
+		t += "~float"
+	}
 	return t
 }
 
